@@ -125,27 +125,23 @@ deriving Repr
 def Pool.init : Pool := { visited := [], next := 258, strs := [] }
 
 /-- the `match standard_glyphs.get(ps_name)` expression: the index to store and the updated pool.
-`none` = `i += 1` overflows `u16` (panic in the overflow-checked profile). -/
-def poolIndex (p : Pool) (name : Bytes) : Option (Nat × Pool) :=
+`i = i.wrapping_add(1)` (fix: was `i += 1`, which overflowed after the 65278th new name). -/
+def poolIndex (p : Pool) (name : Bytes) : Nat × Pool :=
   match stdIndex name with
-  | some k => some (k, p)
+  | some k => (k, p)
   | none =>
     match lookupB name p.visited with
-    | some k => some (k, p)
+    | some k => (k, p)
     | none =>
-      if p.next ≥ 65535 then none else
-      some (p.next, { visited := (name, p.next) :: p.visited, next := p.next + 1, strs := p.strs ++ [name] })
+      (p.next, { visited := (name, p.next) :: p.visited, next := (p.next + 1) % 65536, strs := p.strs ++ [name] })
 
 /-- the second loop over its jobs `(new gid, name)`: the `copy_assign`s it performs, in order, and the final pool -/
-def runPool : Pool → List (Nat × Bytes) → Option (List (Nat × Nat) × Pool)
-  | p, [] => some ([], p)
+def runPool : Pool → List (Nat × Bytes) → List (Nat × Nat) × Pool
+  | p, [] => ([], p)
   | p, (new, name) :: rest =>
-    match poolIndex p name with
-    | none => none
-    | some (k, p') =>
-      match runPool p' rest with
-      | none => none
-      | some (ws, pf) => some ((new, k) :: ws, pf)
+    let r := poolIndex p name
+    let q := runPool r.2 rest
+    ((new, r.1) :: q.1, q.2)
 
 /-- the (old gid, glyphNameIndex) pairs both loops enumerate: `.iter().enumerate().take(max_old_gid + 1)` -/
 def indexPairs (t : Bytes) (maxOld : Nat) : List (Nat × Nat) :=
@@ -200,18 +196,17 @@ structure TailOut where
 deriving Repr
 
 /-- `subset_post_v2tail` after the header: the final index array and the string pool.
-`"trap"`: `plan.glyphset.last().unwrap()` on an empty glyph set, or the `u16` name counter overflows. -/
-def v2tail (inp : PostIn) : Except String TailOut :=
+An empty glyph set (`plan.glyphset.last()` is `None`: a font without glyphs) leaves the zero-initialised array
+(fix: was `unwrap()`). -/
+def v2tail (inp : PostIn) : TailOut :=
   match inp.maxOld with
-  | none => .error "trap"
+  | none => { arr := List.replicate inp.nout 0, strs := [] }
   | some m =>
     let gmap := oldToNew inp.n2o
     let pairs := indexPairs inp.t m
     let w1 := jobs1 inp.nout gmap pairs
-    match runPool Pool.init (jobs2 (pstrAll (stringData inp.t)) gmap pairs) with
-    | none => .error "trap"
-    | some (w2, pool) =>
-      .ok { arr := applyWrites (List.replicate inp.nout 0) (w1 ++ w2), strs := pool.strs }
+    let q := runPool Pool.init (jobs2 (pstrAll (stringData inp.t)) gmap pairs)
+    { arr := applyWrites (List.replicate inp.nout 0) (w1 ++ q.1), strs := q.2.strs }
 
 /-- the bytes of the rebuilt version 2.0 table -/
 def v2bytes (hdr : Bytes) (nout : Nat) (o : TailOut) : Bytes :=
@@ -219,7 +214,7 @@ def v2bytes (hdr : Bytes) (nout : Nat) (o : TailOut) : Bytes :=
 
 /-- `Post::subset` as seen through `subset_font`.
 `"dropped"`: `font.post()` fails (`SubsetTableError` without a serializer error: the table is omitted);
-`"trap"`: see `v2tail`; `"err"`: the output does not fit the largest serializer buffer tried (`subset_font`
+`"err"`: the output does not fit the largest serializer buffer tried (`subset_font`
 fails); `"unmodelled"`: a plan entry with new gid `>= num_output_glyphs` (never produced by `Plan::new`;
 the second loop would write outside the array). -/
 def subsetPost (inp : PostIn) : Except String Bytes :=
@@ -230,11 +225,8 @@ def subsetPost (inp : PostIn) : Except String Bytes :=
     if inp.n2o.any (fun no => no.1 ≥ inp.nout) then .error "unmodelled" else
     let room := SubsetGvar.room inp.t.length inp.srcGlyphs inp.nout
     if 34 + 2 * inp.nout > room then .error "err" else
-    match v2tail inp with
-    | .error e => .error e
-    | .ok o =>
-      let out := v2bytes hdr inp.nout o
-      if out.length > room then .error "err" else .ok out
+    let out := v2bytes hdr inp.nout (v2tail inp)
+    if out.length > room then .error "err" else .ok out
   else .ok hdr
 
 /-! ## head, hhea -/
